@@ -628,3 +628,49 @@ def validate_all(ctx, P, scope, rule="VALIDATE-ALL", tus=None):
                        "`break` in a validating loop: the elements after the one that triggers it are never checked")
                 k += 1
     return n
+
+
+# (function, local): an out-parameter result that is legitimately ignored, confirmed by reading
+OUT_UNREAD_OK = {
+    ("ancestor_mapper_merge_ancestors", "num_flushed_edges"): "link_ancestors never filters nodes: there is no node to take back when no edge was output",
+}
+
+
+def out_unread(ctx, P, scope, rule="OUT-UNREAD", tus=None):
+    """A scalar local whose only uses are `&v` arguments: the callee reports something through it and the caller never looks."""
+    ctx.rule(rule, "a scalar local that is handed to a libtskit function by address (an out-parameter: a count, an id, a flag) is read "
+                   "afterwards; a result that is requested and never consulted means the decision that depends on it is missing "
+                   "(simplifier_merge_ancestors takes a node back when num_flushed_edges == 0; a sibling that asks for the count and "
+                   "ignores it keeps the node)")
+    n = 0
+    scal = re.compile(r"^(tsk_size_t|tsk_id_t|int|double|size_t|bool|tsk_flags_t|unsigned int|\w+ \*|const \w+ \*)$")
+    for key in (tus or LIB_TUS):
+        if key == "module":
+            continue
+        tu = P.tus[key]
+        for fn in tu.funcs.values():
+            if fn.body is None or not scope(key, fn.name):
+                continue
+            locs = {d.name: d for d in walk(fn.body) if d.k == "VarDecl" and d.name and scal.match(d.ty or "")}
+            if not locs:
+                continue
+            addr = {}
+            for c in walk(fn.body):
+                if c.k != "CallExpr":
+                    continue
+                for a in c.kids[1:]:
+                    a0 = strip(a)
+                    if a0 is not None and a0.k == "UnaryOperator" and a0.op == "&":
+                        v = strip(a0.kids[0])
+                        if v is not None and v.k == "DeclRefExpr" and v.ref in locs:
+                            addr.setdefault(v.ref, []).append(c)
+            for v, cs in sorted(addr.items()):
+                refs = [x for x in walk(fn.body) if x.k == "DeclRefExpr" and x.ref == v]
+                n += 1
+                unread = len(refs) == len(cs)
+                why = OUT_UNREAD_OK.get((fn.name, v))
+                ctx.ob(rule, "%s|%s" % (fn.name, v), (not unread) or why is not None, tu.loc(cs[0]),
+                       ("`%s` is read after %s fills it" % (v, callee(cs[0]))) if not unread else
+                       ("accepted: %s" % why if why else
+                        "`%s` is filled by %s and never read: whatever the caller should do with it is not done" % (v, callee(cs[0]))))
+    return n
